@@ -4,6 +4,7 @@
   tools/seeded.py run <id> [<check> ...] [--tier quick]   apply seeded/<id>/patch.diff to /repo, run the
                                                            checks, ALWAYS undo the patch, record result.json
   tools/seeded.py all [--tier quick]                       every seeded change against the check of its property
+  tools/seeded.py benign [<id> ...]                        property-PRESERVING changes in benign/<id>/: checks must exit 0
 
 The patch is never committed in /repo. Replay files produced while a patch is applied are moved
 to .work/seeded-replays/<id>/ (they describe the patched tree, not /repo's)."""
@@ -22,8 +23,8 @@ def clean_repo():
     return r.stdout.strip() == ""
 
 
-def run_one(sid, checks, tier):
-    d = os.path.join(VERIF, "seeded", sid)
+def run_one(sid, checks, tier, root="seeded"):
+    d = os.path.join(VERIF, root, sid)
     patch = os.path.join(d, "patch.diff")
     meta = json.load(open(os.path.join(d, "meta.json")))
     if not checks:
@@ -73,6 +74,9 @@ def run_one(sid, checks, tier):
             shutil.copytree(ev_bak, ev)
     out = {"seeded": sid, "property": meta["property"], "tier": tier, "results": results,
            "caught": any(v["exit"] == 1 for v in results.values())}
+    if root == "benign":
+        out = {"benign": sid, "property": meta["property"], "tier": tier, "results": results,
+               "false_alarm": any(v["exit"] != 0 for v in results.values())}
     json.dump(out, open(os.path.join(d, "result.json"), "w"), indent=1)
     return out
 
@@ -88,6 +92,11 @@ def main():
         sys.exit(__doc__)
     if a[0] == "run":
         run_one(a[1], a[2:], tier)
+    elif a[0] == "benign":
+        # property-preserving changes: every check must stay silent (exit 0)
+        ids = a[1:] or [os.path.basename(os.path.dirname(p)) for p in sorted(glob.glob(os.path.join(VERIF, "benign", "*", "meta.json")))]
+        for i in ids:
+            run_one(i, [], tier, root="benign")
     elif a[0] == "all":
         for d in sorted(glob.glob(os.path.join(VERIF, "seeded", "*", "meta.json"))):
             run_one(os.path.basename(os.path.dirname(d)), [], tier)
